@@ -448,9 +448,9 @@ def doLine (line : String) : M String := do
 
 /-- initial world: both singleton clock threads have reached their first `wait` -/
 def G.start : G :=
-  let sys := (Clock.init Tempo.id).eval 0
-  let app : App := { App.init with pc := .parked none none }
-  { sys := sys, app := app, seen := #[sys.hist.length, 0] }
+  let sys := ((Clock.init Tempo.id).step (.thr 0)).getD (Clock.init Tempo.id)
+  let app := ((App.init.step (.thr 0)).bind fun a => a.step (.thr 0)).getD App.init
+  { sys := sys, app := app, seen := #[sys.hist.length, app.hist.length] }
 
 partial def loop (h : IO.FS.Stream) (out : IO.FS.Stream) (g : G) : IO Unit := do
   let line ← h.getLine
